@@ -1,5 +1,6 @@
 """C11 — minimal_m_separator / is_minimal_m_separator: sound, complete, minimal; x, y single nodes of any label type."""
 import graphs as gr
+import c12_ref as ref
 
 PROP = "C11"
 RULE = ("every acyclic ADMG(n) and ancestral ANC(n) graph, n<=3 quick / n<=4 thorough, every node pair (x,y) (ordered for n<=3, "
@@ -15,8 +16,14 @@ RULE = ("every acyclic ADMG(n) and ancestral ANC(n) graph, n<=3 quick / n<=4 tho
         "minimal_m_separator is fed to is_minimal_m_separator twice (must stay intact and be judged True), the documented defaults "
         "i=None / r=None are compared with the explicit sets; a third of the n<=3 graphs also as ADMG instances; "
         "custom edge-type names ('dir','bidir','undir') passed "
-        "explicitly on half of the n<=3 graphs, an eighth of the 4-node and random ones. distinct by (canonical graph, label family, "
-        "repeat seed, layer names, argument kind); non-trivial = "
+        "explicitly on half of the n<=3 graphs, an eighth of the 4-node and random ones. DEEP stream (2 graphs of about 200 nodes: a directed chain of 200 ancestors of x with a member "
+        "of I far up the chain, an undirected chain of 200 nodes ending in a member of I) run with 120 frames of recursion head-room "
+        "(HEAD is iterative there); their expectation is the Python transcription harness/c12_ref.py of the models' definitions "
+        "(m-separation through the proved moralisation criterion, all minimal separators by subset enumeration), which on every other "
+        "case of every run is itself compared with the extracted proved model ('reference-vs-model'); before every REPEAT case the "
+        "API is first run on an unrelated graph in the same process; a slice with graph-level attributes whose keys are 2021 / "
+        "'edge_types' / 'graphs'; label family obj (identity-hashed objects). distinct by (canonical graph, label family, "
+        "repeat seed, layer names, argument kind, object kind); non-trivial = "
         "some query has a non-empty minimal separator and some query has none")
 EXHAUSTIVE = {"quick": "ADMG(n), ANC(n) n<=3, DAG(4) and ANC(4) with an undirected edge: all (x,y), I<=R<=V-{x,y}, Z<=V-{x,y}", "thorough": "same, n<=4"}
 TRUSTED = ["networkx copy / remove_node / neighbors taken at face value",
@@ -44,7 +51,7 @@ LEVEL_NOTE = ("genuine defects found: fix proposals fixes/C11-01..03 (applied to
 TECHNIQUE = ("Coq proof (model = spec for all four clauses, all sizes: C01 theorem, anterior restriction, moralisation criterion, closest-separator arguments) + bounded kernel computation over a verified finite enumeration with "
              "brute-force subset enumeration (n<=3; DAGs n=4) + refutation lemmas for the old behaviour + extracted-model "
              "correspondence judged by the brute-force oracle")
-LABS = ["str", "tuple", "char", "frozenset", "bigint"]
+LABS = ["str", "tuple", "char", "frozenset", "bigint", "obj"]
 SPOT_N = 12
 
 
@@ -145,6 +152,13 @@ def gen_cases(tier, rng):
         others = [v for v in g["V"] if v not in (x, y)]
         qs.append([x, y, [], others, [list(z) for z in gr.subsets(others)]])
         yield {"kind": "undchain", "g": g, "qs": qs, "oracle": True}
+    # DEEP stream: recursion head-room of 120 frames, expectation from the Python transcription of the model
+    for name, g, qs in deep_cases():
+        yield {"kind": "deep:" + name, "g": g, "qs": qs, "oracle": False, "deep": name, "_reclimit": 120}
+    # graph-level attributes with awkward keys
+    for j, c in enumerate(small):
+        if j % 5 == 2:
+            yield dict(c, kind=c["kind"] + ":gattr", gattr=True)
     # REPEAT stream: warm-up on a neighbour graph, in-place edit of the same object, then the judged queries
     for j, c in enumerate(small):
         yield dict(c, kind=c["kind"] + ":rep", rep=1000 + j)
@@ -206,15 +220,46 @@ def gen_cases(tier, rng):
 
 
 def encode(case):
+    if case.get("deep"):
+        return [1, gr.enc(gr.G([])), []]      # too long for the round-based Gallina closures: expectation from c12_ref
     return [0 if case["oracle"] else 1, gr.enc(case["g"]), case["qs"]]
 
 
 def decode(case, v):
     out = []
+    if case.get("deep"):
+        for x, y, I, R, Zs in case["qs"]:
+            mins = ref.minimal_seps(case["g"], x, y, I, R)
+            out.append({"minsep": mins[0] if mins else None, "mins_model": mins, "mins_oracle": None, "ref": "only",
+                        "ismin": [e[0] for e in _expected_ismin([x, y, I, R, Zs], mins)]})
+        return out
     for r in v:
         out.append({"minsep": (r[0][0] if r[0] else None), "mins_model": sorted(r[1]),
                     "mins_oracle": sorted(r[2]) if case["oracle"] else None, "ismin": r[3]})
     return out
+
+
+def deep_cases():
+    """long anterior chains (about 200-250 nodes): a directed chain into x, a member of I far up that chain, an undirected
+    chain that ends in a member of I"""
+    # 1. a_k -> ... -> a_1 -> x, a_5 -> y, x -> m -> y
+    k = 200
+    x, y, m = 0, 1, 2
+    a = [None] + list(range(3, 3 + k))                # a[1..k]
+    D = [[a[1], x]] + [[a[j + 1], a[j]] for j in range(1, k)] + [[a[5], y], [x, m], [m, y]]
+    g = gr.G(range(3 + k), D=D)
+    R = [m, a[1], a[3], a[150]]
+    zs = [[m, a[1]], [m, a[3]], [m], [m, a[1], a[3]], [m, a[150]]]
+    yield "directed-chain", g, [[x, y, [], R, zs], [x, y, [a[150]], R, [[m, a[1], a[150]], [m, a[150]], [m, a[1]]]],
+                                [a[180], y, [], [a[100], a[2], m, x], [[a[100]], [a[2]], [x], [a[100], a[2]]]]]
+    # 2. u_k - ... - u_1 - i, i -> y, u_100 -> x, x -> m -> y, I = {i}
+    k = 200
+    x, y, m, i = 0, 1, 2, 3
+    u = [None] + list(range(4, 4 + k))
+    g = gr.G(range(4 + k), D=[[i, y], [u[100], x], [x, m], [m, y]], U=[[u[1], i]] + [[u[j], u[j + 1]] for j in range(1, k)])
+    R = [m, i, u[50], u[150]]
+    yield "undirected-chain", g, [[x, y, [i], R, [[i, m], [i, m, u[50]], [i]]], [x, y, [], R, [[m, i], [m, u[50]], [m]]],
+                                  [u[200], y, [], [i, u[7]], [[i], [u[7]], [i, u[7]]]]]
 
 
 CUSTOM_NAMES = ["dir", "bidir", "undir"]
@@ -309,6 +354,13 @@ def run_impl(case):
     g = case["g"]
     rep = case.get("rep")
     g0 = gr.perturb(g, random.Random(rep)) if rep is not None else None
+    if rep is not None:
+        # CROSS-CALL: first the API on an unrelated graph (nodes the target lacks, two layers only) in the same process
+        import pywhy_graphs.networkx as pywhy_nx
+        A, labA, invA = gr.to_mixed(gr.G([90, 91, 92, 93], D=[[90, 92], [92, 91]], B=[[92, 93]]), None,
+                                    layers=("directed", "bidirected"))
+        pywhy_nx.minimal_m_separator(A, 90, 91)
+        pywhy_nx.is_minimal_m_separator(A, 90, 91, {92})
     if g0 is not None:
         # REPEAT: warm up on a neighbour graph (same node and edge counts), edit the SAME object in place, then judge
         M, lab, inv, kw, lmap = build(g0, case)
@@ -318,9 +370,17 @@ def run_impl(case):
         gr.morph(M, g0, g, lab, lmap)
     else:
         M, lab, inv, kw, lmap = build(g, case)
+    if case.get("gattr"):
+        # legal networkx graph attributes: a non-string key and keys that look like constructor arguments
+        M.graph[2021] = "user data"
+        M.graph["edge_types"] = "user data"
+        M.graph["graphs"] = "user data"
     before = gr.snapshot(M)
     res = _queries(M, lab, inv, kw, case["qs"], case.get("argkind"))
     out = {"res": res, "mutated": gr.snapshot(M) != before}
+    if not case.get("deep"):
+        # pure Python transcription of the model (c12_ref), compared with the extracted model in compare()
+        out["ref"] = [ref.minimal_seps(g, q[0], q[1], q[2], q[3]) for q in case["qs"]]
     if rep is not None and rep % 2 == 1:
         # the same queries on a copy taken after the warm-up must agree
         out["copy_differs"] = _queries(M.copy(), lab, inv, kw, case["qs"], case.get("argkind")) != res
@@ -381,6 +441,8 @@ def compare(case, impl, model):
     for k, obs, det in d:
         if obs == "model-vs-oracle":
             return obs
+    if "ref" in impl and impl["ref"] != [m["mins_model"] for m in model]:
+        return "reference-vs-model"
     if d:
         return d[0][1]
     if impl["mutated"]:
@@ -397,6 +459,10 @@ def classify(case, impl, model):
     if "exc" in impl:
         return None
     d = _query_diffs(case, impl, model)
+    if "ref" in impl and impl["ref"] != [m["mins_model"] for m in model]:
+        return None
+    if d and case.get("deep"):
+        return "deep:" + str(case["deep"]) + ":" + d[0][1] + ":" + d[0][2]
     if not d:
         for r in impl["res"]:
             if r.get("integrity"):
@@ -423,7 +489,7 @@ def nontrivial(case, model):
 
 def key(case):
     return (gr.canon(case["g"]), case.get("_lab", "int"), case.get("rep"), tuple(case.get("names") or ()), case.get("argkind"),
-            case.get("obj"))
+            case.get("obj"), case.get("gattr"))
 
 
 def shrink(case):
